@@ -330,6 +330,14 @@ def run(ctx):
         for name, rx in facts:
             if not re.search(rx, text):
                 return False, "Makefile: %s does not have the expected form" % name, {"fact": name, "regex": rx}
+        import os
+        for sub in ("blackbird_python", "blackbird_cpp"):
+            for root, _dirs, files in sorted(os.walk(os.path.join(ctx.repo, sub))):
+                for f in sorted(files):
+                    if f in ("Makefile", "makefile", "GNUmakefile") or f.endswith(".mk"):
+                        return False, "unexpected build file %s" % os.path.join(root, f), {"file": os.path.relpath(os.path.join(root, f), ctx.repo)}
+                    if f == "CMakeLists.txt" and re.search(r"\.g4|org\.antlr\.v4\.Tool|antlr4?\s+-Dlanguage", open(os.path.join(root, f), encoding="utf-8").read()):
+                        return False, "%s regenerates the parser" % os.path.join(root, f), {"file": os.path.relpath(os.path.join(root, f), ctx.repo)}
         m = re.search(r"antlr-([0-9.]+)-complete\.jar", text)
         if m and m.group(1) != "4.9.2":
             ctx.note("identity/makefile: the Makefile's ANTLR4 variable names antlr-%s-complete.jar, the shipped artefacts were "
